@@ -12,6 +12,8 @@ def run(ctx):
     res.rule("C17-R1", "typestate of the current endpoint's entry per message-loop path: invalid message -> erase; unsegmented -> erase; "
                         "first segment -> entry := new SegmentedPacket; continuation rejected -> erase; continuation completes -> erase "
                         "(after delivery); continuation accepted and incomplete -> untouched (the one path that may leave an entry)")
+    res.rule("C17-R1A", "every accepting path of addSegment records the accepted segment's type and advances the counter exactly once, so that the "
+                         "last segment is seen (isAssembled) and the entry is released")
     res.rule("C17-R1L", "lemma: the default entry operator[] may insert can never be accepted (stored version 0, accept requires version "
                          "equality, the loop is only reached when input byte 0 — the version — is non-zero)")
     res.rule("C17-R2", "the reassembly buffer grows only by resize in the first-segment constructor and in addSegment (no reserve, no other writer)")
@@ -21,6 +23,7 @@ def run(ctx):
                         "the table is used only inside decode (checked: C18-R2)"]
     res.not_decided += ["allocator-level memory", "the pending-byte bound as arithmetic (only: growth happens where a copy of the same length follows)"]
     n = D.rule_loop_typestate(res, "C17-R1", m)
+    D.rule_accept_guard(res, "C17-R1A", m)
     D.rule_default_entry_rejected(res, "C17-R1L", m)
     D.rule_buffer_growth(res, "C17-R2", m)
     D.rule_table_only_state(res, "C17-R3", m)
